@@ -159,25 +159,46 @@ def check(run: Run) -> None:
         run.check("C12.R3", f"{m.member}: the rendered skeleton is an item of the grammar", ok, "Note.to_string", f"{m.member}: tokens of {head!r}+word+NL",
                   f"`{head}x\\n` is not derivable from the grammar's item rule", file=FILE_P, node=fi.node)
     run.sample(dict(rule="C12.R1", rendered={k: [p if isinstance(p, str) else "<body>" for p in v] for k, v in rendered.items()}))
-    # compile-back of the kind character (same evaluation as C01.R3)
+    # round trip of kind and priority: render a generic note of each kind with Note.to_string, parse the rendered prefix the way the
+    # grammar does (kind character, optional Pn) and drive the listener over that item: the same kind and priority come back
+    from ..itemscen import compile_items
+    from ..drive import item_tree
+    import re as _re
+
+    Ir = Interp(model)
+    TP = "zorg.domain.types.TodoPayload"
     for m in members:
-        if m.member == "BASIC":
-            continue
-        orig = I.probes["method:*"]
-
-        def one(I2, recv, name, args, kwargs, st, node, lit=m.value, orig=orig):
-            if recv.cls.startswith("ctx:todo_prefix") and name == "getText":
-                return [(lit, st)]
-            return orig(I2, recv, name, args, kwargs, st, node)
-
-        I.probes["method:*"] = one
-        try:
-            res = run_handler(ts, model, "enterTodo_prefix", "todo_prefix", "ITEM", set_state_fields(ts.tree0, in_note=True))
-        finally:
-            I.probes["method:*"] = orig
-        outs = {repr(state_fields(snap(root, s)).get("todo_status")) if not isinstance(v, Raised) else f"raises {v.exc}" for v, s, root in res}
-        run.check("C12.R1", f"{m.value!r} compiles back to {m.member}", outs == {repr(m)}, "enterTodo_prefix", f"{m.value!r} -> {sorted(outs)}",
-                  f"the character {m.value!r} emitted for {m.member} compiles back to {sorted(outs)}", file=FILE_C)
+        for prio in ("P3", "P8"):
+            str_ = State()
+            payload = None if m.member == "BASIC" else str_.alloc(HObj("obj", cls=TP, fields=dict(status=m, priority=prio)))
+            note = str_.alloc(HObj("obj", cls="zorg.domain.models._page.Note", fields=dict(body="round trip words", todo_payload=payload, zid=None)))
+            try:
+                rendered_txt = [v for v, s in Ir.run_function(F_TOSTR, [note], st=str_) if isinstance(v, str) and not s.imprecise]
+            except Exception:
+                rendered_txt = []
+            if len(rendered_txt) != 1:
+                run.undecided("C12.R1", "Note.to_string", f"{m.member}/{prio}: cannot render abstractly")
+                continue
+            mt = _re.fullmatch(r"(\S) (?:(P[0-9]) )?round trip words\n", rendered_txt[0])
+            if not mt:
+                run.refuted("C12.R1", "Note.to_string", f"{m.member}: rendered {rendered_txt[0]!r}", f"a {m.member} note renders as {rendered_txt[0]!r}, which is not `<kind> [Pn] body`", file=FILE_P)
+                continue
+            try:
+                notes, raised, imprecise = compile_items(model, ts.tree0, [item_tree(mt.group(1), "round trip words", mt.group(2), 3)])
+            except Exception as e:
+                run.undecided("C12.R1", "ZorgFileCompiler", f"{m.member}: cannot drive the listener: {type(e).__name__}")
+                continue
+            if raised is not None or imprecise or len(notes) != 1:
+                run.undecided("C12.R1", "ZorgFileCompiler", f"{m.member}: " + (f"raises {raised.exc}" if raised is not None else "; ".join(imprecise[:2]) or f"{len(notes)} notes"))
+                continue
+            tp = notes[0].get("todo_payload")
+            got_status = tp.get("status") if isinstance(tp, dict) else None
+            ok = (m.member == "BASIC" and tp is None) or (got_status == m)
+            run.check("C12.R1", f"{m.value!r} compiles back to {m.member}", ok, "Note.to_string/ZorgFileCompiler", f"{m.value!r} -> {got_status}",
+                      f"the text {rendered_txt[0]!r} rendered for a {m.member} note compiles back to kind {got_status}", file=FILE_C)
+            if m.member != "BASIC" and mt.group(2):
+                run.check("C12.R2", f"{m.member}: the emitted priority {prio} compiles back", isinstance(tp, dict) and tp.get("priority") == prio, "Note.to_string/ZorgFileCompiler", f"{m.member} {prio} -> {tp}",
+                          f"a {m.member} todo with priority {prio} renders as {rendered_txt[0]!r} and compiles back to {tp}", file=FILE_C)
 
     # ---- R3b: the body is emitted verbatim (abstract evaluation of to_string on generic multi-line bodies)
     Iv = Interp(model)
@@ -225,7 +246,7 @@ def check(run: Run) -> None:
     allocated_zids_lex_as_zids(run, model, "C12.R8")
     # ---- R6
     bullet_scan(run, model, ts)
-    run.units = dict(functions=[F_TOSTR, F_REFRESH, f"{COMPILER}.enterTodo_prefix", f"{COMPILER}._add_note"], kinds=len(members))
+    run.units = dict(functions=[F_TOSTR, F_REFRESH, f"{COMPILER}._add_note"], kinds=len(members))
     run.assumptions += ["value-level round trip of arbitrary bodies is not decided (e.g. a done todo whose body starts with a priority-shaped word)"]
 
 
